@@ -25,6 +25,7 @@ import contextlib
 import hashlib
 import io
 import itertools
+import os
 
 import numpy as np
 
@@ -329,11 +330,6 @@ def run_case(case, refs=None):
             out["compared"] += 1
             out["worst"] = max(out["worst"], w)
             out["problems"] += [f"row {k} ({s[0]}): {x}" for x in p]
-        # padding coordinates must not move
-        sp_in = r["species"]
-        moved = (r["final_coordinates"] != r["input_coordinates"])[sp_in == 0]
-        if moved.any():
-            out["problems"].append("padding-slot coordinates changed during the run")
         return out
     obs, status, msg = _sp_call(mols, cfg, pad, pat)
     if status != "ok":
@@ -343,9 +339,6 @@ def run_case(case, refs=None):
         out["problems"].append(f"batch call: {msg}")
         return out
     out["hz"] = msg
-    _, xyz, _, _ = B.assemble(mols, pad, pat)
-    if not np.array_equal(obs["coordinates_after"], xyz):
-        out["problems"].append("input coordinates (real or padding) were modified by the call")
     for k, s in enumerate(specs):
         ref = refs[ref_key(cfg, s)]
         if ref["status"] != "ok":
@@ -421,17 +414,22 @@ def lattice(tier, seed):
             if len(bt) == 1 and w == 0:
                 continue  # that is the reference itself
             for method in METHODS:
+                # the full pattern alphabet for AM1 (quick) / for batches of size <= 2 (thorough); the rest
+                # of the lattice uses the two extreme patterns
+                reduced = (method != "AM1") if quick else (len(bt) == 3)
+                if reduced and pat not in ("zero", "mixed"):
+                    continue
                 for solver in SOLVERS:
                     cases.append(_case("gs", specs, w, pat, _cfg(method, solver), seed))
     # fm: force modes on every batch
-    fm_layouts = [(0, "zero"), (1, "mixed")] if quick else [(0, "zero"), (1, "far"), (3, "mixed")]
+    fm_layouts = [(0, "zero"), (1, "mixed")] if quick else [(0, "zero"), (1, "mixed"), (3, "far")]
     for bt in batches:
         if len(bt) == 1:
             continue
         if not quick and len(bt) == 3 and len(set(bt)) < 3 and bt[0] != bt[2]:
             continue  # thorough: triples with a repeated member only in the a-b-a arrangement (analytical is 1 s per call)
         specs = [_spec(n) for n in bt]
-        for w, pat in fm_layouts:
+        for w, pat in fm_layouts[: (2 if len(bt) == 3 else 3)]:
             for method in METHODS:
                 for fmode in ("analytical", "semi_numerical"):
                     cases.append(_case("fm", specs, w, pat, _cfg(method, "adaptive", fmode), seed))
@@ -539,6 +537,10 @@ def describe(c, res):
 
 def run(chk, tier, seed):
     cases = lattice(tier, seed)
+    only = os.environ.get("C05_SECTIONS")  # development aid; a filtered run is reported as capped
+    if only:
+        cases = [c for c in cases if c["sec"] in only.split(",")]
+        chk.cap(f"C05_SECTIONS={only}")
     chk.planned = len(cases)
     # references: every (configuration, molecule, distortion) alone
     need = {}
@@ -563,9 +565,9 @@ def run(chk, tier, seed):
             )  # fmt: skip
     chk.extra["references"] = len(keys)
     # determinism: one sample case of each kind twice in two processes
-    samples = [next(c for c in cases if c["sec"] == "gs" and len(c["mols"]) == 2), next(c for c in cases if c["sec"] == "md")]
+    samples = [c for c in cases if c["sec"] == "gs" and len(c["mols"]) == 2][:1] + [c for c in cases if c["sec"] == "md"][:1]
     twice = pmap(run_case, samples + samples, chunk=1, timeout=600)
-    for c, a, b in zip(samples, twice[:2], twice[2:]):
+    for c, a, b in zip(samples, twice[: len(samples)], twice[len(samples) :]):
         if is_error(a) or is_timeout(a) or a != b:
             chk.harness_error(f"non-deterministic sample case {case_key(c)}: {a} vs {b}")
     results = pmap(run_case, cases, chunk=8, timeout=900, progress="C05 lattice")
